@@ -22,7 +22,7 @@ func exactLin(a1, d1, a2, d2, t int64) *big.Rat {
 }
 
 func suiteLin(R *runner, r *rng) {
-	R.rule("linear correction: reference quadruples (a1,d1,a2,d2) with a1 != a2 in [0,24h], slopes 0.5..2 incl. 25/23.976, 23.976/25, 30/29.97, 1 and random ones, applied to lists of 0..12 cues with boundaries in [0,24h] (incl. a1, a2, 0, 24h); the model (Flocq binary64) must agree bit for bit; oracle: |result - exact rational| < 1 us, a1->d1, a2->d2, order preserved for positive slope, cue length scaled by the slope (2 us), text/style/order untouched; non-trivial = slope != 1 or offset != 0")
+	R.rule("linear correction: reference quadruples (a1,d1,a2,d2) with a1 != a2 in [0,24h], slopes 0.5..2 incl. 25/23.976, 23.976/25, 30/29.97, 1, random ones and slopes within a few 1e-9 of 1 (a drift of microseconds over hours), applied to lists of 0..12 cues with boundaries in [0,24h] (incl. a1, a2, 0, 24h); the model (Flocq binary64) must agree bit for bit; oracle: |result - exact rational| < 1 us, a1->d1, a2->d2, order preserved for positive slope, cue length scaled by the slope (2 us), text/style/order untouched; non-trivial = slope != 1 or offset != 0")
 	N := 1500
 	if R.tier == "thorough" {
 		N = 20000
@@ -35,7 +35,18 @@ func suiteLin(R *runner, r *rng) {
 		if r.chance(1, 2) {
 			a1, a2 = r.i64n(3600e9), 3600e9+r.i64n(day-3600e9)
 		}
-		switch r.intn(3) {
+		switch r.intn(4) {
+		case 3: // slope within a few 1e-9 of 1: a common offset plus a drift of microseconds over hours
+			off := r.rangeI64(-5e9, 5e9)
+			d1 = a1 + off
+			if d1 < 0 {
+				d1 = 0
+			}
+			span := (a2 - a1) / 250000000 // (a2-a1) * 4e-9
+			if span < 2000 {
+				span = 2000
+			}
+			d2 = a2 + (d1 - a1) + r.rangeI64(-span, span)
 		case 0: // named ratio
 			q := ratios[r.intn(len(ratios))]
 			d1 = r.i64n(60e9)
